@@ -13,7 +13,7 @@ from props import _util
 ID = 'C05'
 LEAN_TARGETS = ['TexSoupProofs.Properties.C05']
 THEOREMS = ['TexSoup.C05.' + n for n in (
-    'delete_splice', 'replace_splice', 'remove_fails', 'insert_splice', 'insert_beyond', 'append_splice',
+    'delete_splice', 'replace_splice', 'remove_fails', 'insert_splice', 'insert_splice_py', 'insert_beyond', 'append_splice',
     'insert_fails', 'sites', 'edit_preserves_others', 'edit_new_material', 'twins_example',
     'Legacy.delete_not_local')]
 PARTIAL = []
@@ -38,7 +38,8 @@ ASSUMPTIONS = ['the model driver is the compiled form of the verified definition
                'a container is a node whose contents may be edited: every node but a command other than \\item, for which '
                'insert/append raise TypeError (documented) and must leave the document as it is',
                'insertion indices count the elements of the stored content list (whitespace-only text included), '
-               'as TexExpr.insert does; an index beyond the end appends (list.insert)']
+               'as TexExpr.insert does; an index beyond the end appends, a negative index counts from the end and is clamped '
+               'at the front (list.insert); several pieces are the splice l[i:i] = pieces']
 
 FIXED = ['\\x y\\x z',
          '\\begin{itemize}\\item[\\textbf{a}] \\textbf{a} is first\\end{itemize}',
@@ -100,7 +101,9 @@ STR_RULE = ('New plain strings are words/blanks/the empty string and (30% of the
             'between / before / behind its top-level elements, a single blank), alone and among other pieces, for '
             'replace/insert/append: its full text is spliced in (the model splices its elements where the implementation '
             'nests its root, so only the serialisations are compared for these edits). Three pieces inserted at an index '
-            'beyond the end (len+1, len+10, 99, 1000) arrive in the given order. Multi-piece replace/insert with an empty string in first / middle position '
+            'beyond the end (len+1, len+10, 99, 1000) arrive in the given order; insertion indices are any integers: '
+            'negative ones (-1, -2, -len, -len-1, -99; one piece and several) are resolved once as list.insert does and all '
+            'pieces are spliced in there, in order (l[i:i] = pieces). Multi-piece replace/insert with an empty string in first / middle position '
             '(EMPTY_PIECES) at the front and in the middle of a container. ')
 
 
@@ -193,9 +196,11 @@ def single_edits(base, rng, cap=None):
             path, ln, x = rng.choice(good)
             out.append(('ins', 'ins %s %d d:%s' % (L.show_path(path), rng.randint(0, ln), enc(st)), 0, True))
             out.append(('app', 'app %s d:%s,s:%s' % (L.show_path(path), enc(st), enc('s')), 0, True))
-        # several pieces at an index beyond the end: appended in the given order (list.insert clamps)
+        # several pieces at an index beyond the end: appended in the given order (list.insert clamps); at a negative
+        # index: together, in order, at the place list.insert resolves it to
         for path, ln, x in (good if cap is None else rng.sample(good, min(3, len(good)))):
-            for i in ([ln + 1, ln + 10, 99, 1000] if cap is None else [L.past_end(rng, ln)]):
+            for i in ([ln + 1, ln + 10, 99, 1000] + L.neg_indices(ln) if cap is None
+                      else [L.past_end(rng, ln), L.neg_index(rng, ln), -1]):
                 out.append(('ins', 'ins %s %d n:%s,s:%s,n:%s' % (L.show_path(path), i, enc('\\p{1}'), enc('txt'),
                                                                  enc('\\q{2}')), 0, True))
         srcs = L.SRC_STRS if cap is None else rng.sample(L.SRC_STRS, 4)
@@ -216,6 +221,10 @@ def single_edits(base, rng, cap=None):
         for i in range(ln + 2):
             out.append(('ins', 'ins %s %d %s' % (c, i, _mats(rng, rng.choice(REP_SIZES))), 0,
                         twin or 0 < i <= ln))
+        # negative indices (counted from the end, clamped at the front), one piece and several
+        for i in (L.neg_indices(ln) if cap is None else [L.neg_index(rng, ln)]):
+            for size in ((1, 2, 3) if cap is None else (rng.choice((2, 3)),)):
+                out.append(('ins', 'ins %s %d %s' % (c, i, _mats(rng, size)), 0, True))
         out.append(('app', 'app %s %s' % (c, _mats(rng, rng.choice(REP_SIZES))), 0, twin or ln > 0))
     return out
 
